@@ -32,6 +32,7 @@ import (
 	"hash/crc32"
 	"math/rand"
 	"sort"
+	"strings"
 	"sync"
 	"weak"
 )
@@ -299,8 +300,12 @@ func init() {
 			}
 			c07Crc.calls[wp] = append(c07Crc.calls[wp], call)
 			c07Crc.mu.Unlock()
+			// Values only matter for collision questions: the key-binding entry. The store-level entries write and
+			// re-read their own rows (identical streams share one variable), so checksums of different rows stay
+			// unrelated unconstrained values there (over-approximation) and no parity network reaches the solver.
+			pairUp := strings.Contains(e.entryName, "ValueBoundToKey")
 			for _, o := range prevCalls {
-				if o.term == call.term || o.total != call.total || o.total < 0 {
+				if !pairUp || o.term == call.term || o.total != call.total || o.total < 0 {
 					continue
 				}
 				for _, c := range []*c07CrcCall{o, call} {
@@ -343,6 +348,70 @@ func init() {
 				}
 			}
 			return call.term
+		}
+	})
+}
+
+// ---------------------------------------------------------------------------------------------------
+// hash/maphash for the store-level entries of C07 (the append path consults the idempotency membership
+// filter, which hashes the index key with two process-random seeds). The store-level claim is about the
+// log, not the filter, and the filter's layers have the constructor's size there (64/128 words), where
+// symbolic probe positions are intractable (see harness/C08). So for CONCRETE key bytes the hash is
+// one concrete function (FNV-1a over seed and bytes): a legitimate instance of "some hash function" —
+// filter soundness for EVERY hash function is C08's obligation. Natively the real maphash runs; the
+// store's observable behaviour does not depend on which keys collide (a possible hit only adds a point
+// read). Symbolic key bytes fall back to the uninterpreted model of intr_C08.go.
+func c07ConcreteHash(seed uint64, bs []*Term) (uint64, bool) {
+	h := uint64(14695981039346656037)
+	mix := func(b byte) {
+		h ^= uint64(b)
+		h *= 1099511628211
+	}
+	for i := 0; i < 8; i++ {
+		mix(byte(seed >> uint(8*i)))
+	}
+	for _, b := range bs {
+		if !b.IsConst() {
+			return 0, false
+		}
+		mix(byte(b.Val))
+	}
+	return h, true
+}
+
+func init() {
+	extraIntrinsics = append(extraIntrinsics, func(p *Program) {
+		if p.check == nil || p.check.Property != "C07" {
+			return
+		}
+		p.intrinsics["hash/maphash.MakeSeed"] = func(e *Exec, fr *frame, args []Value) Value {
+			s := c08State(e)
+			s.seeds++
+			return Struct{e.ts.BV(64, uint64(s.seeds))}
+		}
+		apply := func(e *Exec, seedV Value, bs []*Term) Value {
+			if st, ok := seedV.(Struct); ok && len(st) == 1 {
+				if seed, ok := st[0].(*Term); ok && seed.IsConst() {
+					if h, ok := c07ConcreteHash(seed.Val, bs); ok {
+						return e.ts.BV(64, h)
+					}
+				}
+			}
+			return c08Apply(e, seedV, bs)
+		}
+		p.intrinsics["hash/maphash.Bytes"] = func(e *Exec, fr *frame, args []Value) Value {
+			sl, ok := args[1].(Slice)
+			if !ok {
+				e.unsupported("hash/maphash.Bytes: argument is not a slice")
+			}
+			return apply(e, args[0], e.byteSliceTerms(sl))
+		}
+		p.intrinsics["hash/maphash.String"] = func(e *Exec, fr *frame, args []Value) Value {
+			st, ok := args[1].(*Str)
+			if !ok {
+				e.unsupported("hash/maphash.String: argument is not a string")
+			}
+			return apply(e, args[0], e.strBytes(st))
 		}
 	})
 }
